@@ -36,6 +36,7 @@ type histCase struct {
 	ConfA, ConfB bool
 	Scribble     bool  // overwrite handed-in / returned byte slices after each call
 	Spare        bool  // hand byte slices in with sentinel-filled spare capacity
+	Layout       int   // 0: every byte argument a private copy; 1, 2: all byte arguments of a call are views into ONE message-like buffer (call order / reversed), each with its natural capacity reaching to the end of the buffer (>= 256 bytes behind the last one)
 	Fail         []int // per round: failing step injected before the good one (see failKinds)
 	NoSB         int   // flavour of "no confirmation sent" when the responder generates none: nil, []byte{}, buf[:0]
 	LatePeer     bool
@@ -88,6 +89,97 @@ func taken(b []byte, scribble bool) []byte {
 	return out
 }
 
+// frame is one patterned buffer laid out like a received protocol message:
+// 32 bytes of pattern, the byte arguments of one call back to back, 256 bytes
+// of pattern. The views handed to the library are plain sub-slices, so each
+// has spare capacity up to the end of the buffer and the next argument sits
+// directly behind the previous one - code that appends to an argument writes
+// into its neighbour or into the tail.
+type frame struct{ buf, orig []byte }
+
+func newFrame(reverse bool, parts [][]byte) (*frame, [][]byte) {
+	n := 32 + 256
+	for _, p := range parts {
+		n += len(p)
+	}
+	f := &frame{buf: make([]byte, n)}
+	for i := range f.buf {
+		f.buf[i] = byte(0xC3 ^ i*29)
+	}
+	views := make([][]byte, len(parts))
+	off := 32
+	for k := range parts {
+		i := k
+		if reverse {
+			i = len(parts) - 1 - k
+		}
+		if parts[i] == nil {
+			continue // "not given" stays nil
+		}
+		copy(f.buf[off:], parts[i])
+		views[i] = f.buf[off : off+len(parts[i])] // capacity reaches to the end of the buffer
+		off += len(parts[i])
+	}
+	f.orig = append([]byte{}, f.buf...)
+	return f, views
+}
+
+// callArgs are the byte arguments of one library call.
+type callArgs struct {
+	c     *histCase
+	parts [][]byte
+	v     [][]byte
+	f     *frame
+}
+
+func (c *histCase) args(parts ...[]byte) *callArgs {
+	a := &callArgs{c: c, parts: parts}
+	if c.Layout != 0 {
+		a.f, a.v = newFrame(c.Layout == 2, parts)
+		return a
+	}
+	for _, p := range parts {
+		a.v = append(a.v, arg(p, c.Spare))
+	}
+	return a
+}
+
+// done checks that the library left the caller's memory alone - the arguments
+// themselves, their spare capacity, and for a frame every byte of the whole
+// buffer - and then (if asked) overwrites all of it.
+func (a *callArgs) done(what string) error {
+	if a.f == nil {
+		for i := range a.parts {
+			if err := after(what, a.v[i], a.parts[i], a.c.Scribble); err != nil {
+				return err
+			}
+		}
+		return nil
+	}
+	if !bytes.Equal(a.f.buf, a.f.orig) {
+		i := 0
+		for a.f.buf[i] == a.f.orig[i] {
+			i++
+		}
+		return fmt.Errorf("%s: the library wrote into the caller's buffer (arguments are views into one %d-byte message buffer, first changed byte at offset %d, argument lengths %v starting at offset 32, reversed=%v)",
+			what, len(a.f.buf), i, lens(a.parts), a.c.Layout == 2)
+	}
+	if a.c.Scribble {
+		for i := range a.f.buf {
+			a.f.buf[i] = byte(0xA5 + 7*i)
+		}
+	}
+	return nil
+}
+
+func lens(p [][]byte) []int {
+	out := make([]int, len(p))
+	for i := range p {
+		out[i] = len(p[i])
+	}
+	return out
+}
+
 func checkHistory(c histCase, r *h.Rec) error {
 	rounds := len(c.RA)
 	if rounds == 0 || len(c.RB) != rounds || len(c.Fail) != rounds || c.KLen < 1 {
@@ -105,18 +197,19 @@ func checkHistory(c histCase, r *h.Rec) error {
 	}
 	r.Label(c.UA.class())
 	r.Label(c.UB.class())
+	r.Label("layout:%s", []string{"private copies", "one message buffer, call order", "one message buffer, reversed order"}[c.Layout])
 	A := newParty(c.DA, c.RA[0], c.UA)
 	B := newParty(c.DB, c.RB[0], c.UB)
-	desc := fmt.Sprintf("\n  dA=%x dB=%x uidA=%s uidB=%s klen=%d confA=%v confB=%v scribble=%v spare=%v", c.DA, c.DB, h.Hex(A.uid), h.Hex(B.uid), c.KLen, c.ConfA, c.ConfB, c.Scribble, c.Spare)
+	desc := fmt.Sprintf("\n  dA=%x dB=%x uidA=%s uidB=%s klen=%d confA=%v confB=%v scribble=%v spare=%v layout=%d", c.DA, c.DB, h.Hex(A.uid), h.Hex(B.uid), c.KLen, c.ConfA, c.ConfB, c.Scribble, c.Spare, c.Layout)
 
 	// ---- key objects from byte encodings that are scribbled afterwards
 	mkPriv := func(d []byte) (*sm2.PrivateKey, error) {
-		a := arg(d, c.Spare)
-		k, err := sm2.NewPrivateKey(a)
+		a := c.args(d)
+		k, err := sm2.NewPrivateKey(a.v[0])
 		if err != nil {
 			return nil, err
 		}
-		return k, after("sm2.NewPrivateKey", a, d, c.Scribble)
+		return k, a.done("sm2.NewPrivateKey")
 	}
 	privA, err := mkPriv(c.DA)
 	if err != nil {
@@ -130,7 +223,8 @@ func checkHistory(c histCase, r *h.Rec) error {
 
 	// ---- the two KeyExchange objects, uid slices scribbled after the constructor
 	mkKE := func(priv *sm2.PrivateKey, peer ref.Point, uid, peerUID []byte, conf bool) (*sm2.KeyExchange, *ecdsa.PublicKey, error) {
-		ua, pa := arg(uid, c.Spare), arg(peerUID, c.Spare)
+		a := c.args(uid, peerUID)
+		ua, pa := a.v[0], a.v[1]
 		pub := libPub(peer)
 		var ke *sm2.KeyExchange
 		var err error
@@ -144,10 +238,15 @@ func checkHistory(c histCase, r *h.Rec) error {
 		if err != nil {
 			return nil, nil, err
 		}
-		if err := after("NewKeyExchange uid", ua, uid, c.Scribble); err != nil {
+		if err := a.done("NewKeyExchange/SetPeerParameters uid, peerUID"); err != nil {
 			return nil, nil, err
 		}
-		if err := after("NewKeyExchange/SetPeerParameters peerUID", pa, peerUID, c.Scribble); err != nil {
+		// the Z of an identity through the one-shot helper, same discipline
+		za := c.args(effUID(uid))
+		if z, err := sm2.CalculateZA(&priv.PublicKey, za.v[0]); err != nil || !bytes.Equal(z, ref.SM2ZA(effUID(uid), ref.Point{X: priv.X, Y: priv.Y})) {
+			return nil, nil, fmt.Errorf("sm2.CalculateZA = %x, %v", z, err)
+		}
+		if err := za.done("sm2.CalculateZA uid"); err != nil {
 			return nil, nil, err
 		}
 		return ke, pub, nil
@@ -164,21 +263,21 @@ func checkHistory(c histCase, r *h.Rec) error {
 	// ---- ecdh key objects, reused over all rounds
 	curve := ecdh.P256()
 	mkE := func(d []byte) (*ecdh.PrivateKey, error) {
-		a := arg(d, c.Spare)
-		k, err := curve.NewPrivateKey(a)
+		a := c.args(d)
+		k, err := curve.NewPrivateKey(a.v[0])
 		if err != nil {
 			return nil, err
 		}
-		return k, after("ecdh NewPrivateKey", a, d, c.Scribble)
+		return k, a.done("ecdh NewPrivateKey")
 	}
 	mkP := func(p ref.Point) (*ecdh.PublicKey, error) {
 		e := enc(p)
-		a := arg(e, c.Spare)
-		k, err := curve.NewPublicKey(a)
+		a := c.args(e)
+		k, err := curve.NewPublicKey(a.v[0])
 		if err != nil {
 			return nil, err
 		}
-		return k, after("ecdh NewPublicKey", a, e, c.Scribble)
+		return k, a.done("ecdh NewPublicKey")
 	}
 	esA, err := mkE(c.DA)
 	if err != nil {
@@ -256,20 +355,20 @@ func checkHistory(c histCase, r *h.Rec) error {
 		if fail == "wrong SB" && c.ConfB {
 			w := cp(sB)
 			w[i%len(w)] ^= 0x40
-			wa := arg(w, c.Spare)
-			if k, s, err := ini.ConfirmResponder(clonePub(RBwire), wa); err == nil {
+			wa := c.args(w, A.uid, B.uid) // the ids are bystanders in the same message
+			if k, s, err := ini.ConfirmResponder(clonePub(RBwire), wa.v[0]); err == nil {
 				return fmt.Errorf("ConfirmResponder accepted a wrong SB: key=%x sA=%x%s", k, s, rd)
 			}
-			if err := after("ConfirmResponder sB", wa, w, c.Scribble); err != nil {
+			if err := wa.done("ConfirmResponder sB"); err != nil {
 				return fmt.Errorf("%v%s", err, rd)
 			}
 		}
-		sBa := arg(sB, c.Spare)
-		keyAret, sAret, err := ini.ConfirmResponder(clonePub(RBwire), sBa)
+		sBa := c.args(sB, enc(e.B.R), A.uid)
+		keyAret, sAret, err := ini.ConfirmResponder(clonePub(RBwire), sBa.v[0])
 		if err != nil {
 			return fmt.Errorf("ConfirmResponder (after %q): %v%s", fail, err, rd)
 		}
-		if err := after("ConfirmResponder sB", sBa, sB, c.Scribble); err != nil {
+		if err := sBa.done("ConfirmResponder sB"); err != nil {
 			return fmt.Errorf("%v%s", err, rd)
 		}
 		keyA, sA := taken(keyAret, c.Scribble), taken(sAret, c.Scribble)
@@ -293,21 +392,21 @@ func checkHistory(c histCase, r *h.Rec) error {
 				}
 			}
 			if w != nil && !bytes.Equal(w, e.s2) {
-				wa := arg(w, c.Spare)
-				if k, err := res.ConfirmInitiator(wa); err == nil {
+				wa := c.args(w, B.uid)
+				if k, err := res.ConfirmInitiator(wa.v[0]); err == nil {
 					return fmt.Errorf("ConfirmInitiator accepted the wrong SA %x (right one %x): key=%x%s", w, e.s2, k, rd)
 				}
-				if err := after("ConfirmInitiator s1", wa, w, c.Scribble); err != nil {
+				if err := wa.done("ConfirmInitiator s1"); err != nil {
 					return fmt.Errorf("%v%s", err, rd)
 				}
 			}
 		}
-		sAa := arg(sA, c.Spare)
-		keyBret, err := res.ConfirmInitiator(sAa)
+		sAa := c.args(sA, A.uid, B.uid)
+		keyBret, err := res.ConfirmInitiator(sAa.v[0])
 		if err != nil {
 			return fmt.Errorf("ConfirmInitiator (after %q): %v%s", fail, err, rd)
 		}
-		if err := after("ConfirmInitiator s1", sAa, sA, c.Scribble); err != nil {
+		if err := sAa.done("ConfirmInitiator s1"); err != nil {
 			return fmt.Errorf("%v%s", err, rd)
 		}
 		keyB := taken(keyBret, c.Scribble)
@@ -352,16 +451,27 @@ func checkHistory(c histCase, r *h.Rec) error {
 					if got := taken(uv.Bytes(), c.Scribble); !bytes.Equal(got, enc(e.V)) {
 						return fmt.Errorf("ecdh %s SM2MQV point %x, GB/T 32918.3 value %x%s", v.name, got, enc(e.V), rd)
 					}
-					ua, pa := arg(v.uid, c.Spare), arg(v.peerUID, c.Spare)
-					kret, err := uv.SM2SharedKey(v.resp, c.KLen, v.s.PublicKey(), v.pP, ua, pa)
+					ua := c.args(v.uid, v.peerUID)
+					kret, err := uv.SM2SharedKey(v.resp, c.KLen, v.s.PublicKey(), v.pP, ua.v[0], ua.v[1])
 					if err != nil {
 						return fmt.Errorf("ecdh %s SM2SharedKey: %v%s", v.name, err, rd)
 					}
-					if err := after("SM2SharedKey uid", ua, v.uid, c.Scribble); err != nil {
+					if err := ua.done("ecdh " + v.name + " SM2SharedKey uid, remoteUID"); err != nil {
 						return fmt.Errorf("%v%s", err, rd)
 					}
-					if err := after("SM2SharedKey remoteUID", pa, v.peerUID, c.Scribble); err != nil {
-						return fmt.Errorf("%v%s", err, rd)
+					if rep == 0 {
+						za := c.args(v.peerUID, v.uid)
+						z, err := v.pP.SM2ZA(newSM3(), za.v[0])
+						wantZ := e.B.z
+						if v.resp {
+							wantZ = e.A.z
+						}
+						if err != nil || !bytes.Equal(z, wantZ) {
+							return fmt.Errorf("ecdh %s SM2ZA = %x, %v; want %x%s", v.name, z, err, wantZ, rd)
+						}
+						if err := za.done("ecdh SM2ZA uid"); err != nil {
+							return fmt.Errorf("%v%s", err, rd)
+						}
 					}
 					if k := taken(kret, c.Scribble); !bytes.Equal(k, e.key) {
 						return fmt.Errorf("ecdh %s SM2SharedKey (call %d) %s, GB/T 32918.3 value %s%s", v.name, rep+1, h.Hex(k), h.Hex(e.key), rd)
@@ -431,6 +541,7 @@ func drawHistory(t *rapid.T) histCase {
 		KLen:  rapid.SampledFrom([]int{1, 16, 16, 32, 33, 100}).Draw(t, "klen"),
 		ConfA: rapid.IntRange(0, 3).Draw(t, "confA") != 0, ConfB: rapid.IntRange(0, 3).Draw(t, "confB") != 0,
 		Scribble: rapid.IntRange(0, 3).Draw(t, "scribble") != 0, Spare: rapid.Bool().Draw(t, "spare"),
+		Layout: rapid.SampledFrom([]int{0, 1, 1, 2, 2}).Draw(t, "layout"),
 		NoSB: rapid.IntRange(0, 2).Draw(t, "noSB"), LatePeer: rapid.Bool().Draw(t, "late"), Destroy: rapid.Bool().Draw(t, "destroy"),
 	}
 	for i := 0; i < rounds; i++ {
